@@ -27,8 +27,12 @@ def load_code(u):
     rules.sig(f, ret="r", world=True)
     rules.r1_logs(f, schema=LOG_SCHEMA)
     rules.r8_thread(f, [r"async_std::fs::read_to_string\("])
+    # C18: "finishes the file it is working on, stops": the stop flag must have been polled since the previous file was started
+    f.requires.append(("C18.poll", "old(w).poll_fresh"))
+    f.at_start(" proof { consume_poll(w); }")
     f.ensures += [
         ("C04.frame", "final(w).fs == old(w).fs && same_but_fs(World { log: final(w).log, ..*old(w) }, *final(w))"),
+        ("C18.poll", "!final(w).poll_fresh"),
         ("C17.skip", "r.is_some() == readable(path@)"),
         ("C05.content", "r.is_some() ==> old(w).fs.dom().contains(path@) && encode_utf8(r.unwrap()@) == old(w).fs[path@]"),
         ("C05.where", "final(w).log == (if r.is_some() { old(w).log } else { old(w).log.push(Event { tag: 4, strs: seq![], nums: seq![] }) })"),
@@ -299,7 +303,7 @@ def generate_code(u):
         ("C05.count", "res.is_ok() && final(w).log.len() > old(w).log.len() && final(w).log.last().tag == 21 ==> final(w).log.last().nums =~= seq![%s]" % tmiss),
         ("C16.nocache", "!%s.use_cache ==> final(w).fs.dom().contains(lock_path()) == old(w).fs.dom().contains(lock_path()) && final(w).fs[lock_path()] == old(w).fs[lock_path()]" % cfg),
         # the lock covers every ID written (D10/D12: unless the lock write itself failed)
-        ("C02.step", "%s.use_cache && !(final(w).alloc.dom() =~= Set::<Seq<char>>::empty()) ==> "
+        ("C02.step,C18.edit", "%s.use_cache && !(final(w).alloc.dom() =~= Set::<Seq<char>>::empty()) ==> "
          "(final(w).fs.dom().contains(lock_path()) && final(w).fs[lock_path()] == lock_bytes(final(w).counter as u32)) || lock_write_failed()" % cfg),
         # ... and strictly (no escape for a failed lock write): KNOWN FINDING, the write error is only logged and the run exits 0
         ("C02.lockfail", "%s.use_cache && !(final(w).alloc.dom() =~= Set::<Seq<char>>::empty()) ==> "
